@@ -159,6 +159,11 @@ pub fn dt_sexp(t: &DataType) -> String {
         LowCardinality(t) => format!("(LowCardinality {})", dt_sexp(t)),
         Unspecified => "(Unspecified)".into(),
         Trigger => "(Trigger)".into(),
+        // a constructor added after the model was written: outside the model (and an open
+        // obligation of C18 through the `datatype_variants` inventory), but it must not stop the
+        // harness of all twenty properties from building
+        #[allow(unreachable_patterns)]
+        other => format!("(Unmodelled {})", format!("{other:?}").split(|c: char| !c.is_alphanumeric()).next().unwrap_or("")),
     }
 }
 
